@@ -80,10 +80,20 @@ def main():
     except Exception:
         hooks_commits = []
     checks = []
+    # what each check decides is taken from the checker itself (checker/props.go), so the manifest
+    # cannot drift from the rules that run
+    try:
+        decided = json.loads(subprocess.run([os.path.join(V, "bin", "sdbcheck"), "props"], capture_output=True, text=True, check=True).stdout)
+    except Exception:
+        decided = {}
     for pid in props:
         if pid not in CLAIMED:
             continue
         tech, text, ref = CLAIMED[pid]
+        if pid in decided:
+            d = decided[pid]
+            text = "Structural necessary conditions decided from the source (not the behaviour itself). DECIDES: " + d["decides"] + " NOT DECIDED: " + d["not_decided"] + " Rules: " + ", ".join(d["rules"]) + "."
+            tech = tech + "; finite-domain abstract interpretation of small decision procedures where the property depends on them (byte code table, two-way merge); sibling/contradiction rules; all over go/types + go/ssa of the current tree"
         checks.append({
             "property_id": pid,
             "quick_cmd": f"bin/check {pid} --tier quick",
